@@ -123,3 +123,4 @@ def rule_db(chk, A):
     except ImportError:
         return
     a64db.run(chk, A)
+    a64db.run_opcodes(chk, A)
